@@ -322,9 +322,11 @@ func sortedCopy(s []string) []string {
 	return o
 }
 
-// sameContent compares a real document (abstracted) with a model document; controllers as a SET (their order in a
-// merged document is not part of the model's prediction), everything else exactly.
-func sameContent(real absDoc, model adoc) bool {
+// sameContent compares a real document (abstracted) with the document predicted by the deterministic model;
+// controllers as a SET (their order in a merged document follows Go map iteration), and for a merge of more than
+// two branches only the service ids (which branch wins an id follows map iteration, too). The exact nondeterministic
+// outcomes are checked by trace validation against the descriptive model.
+func sameContent(real absDoc, model adoc, branches int) bool {
 	ms := append([]svc{}, model.Svcs...)
 	sort.Slice(ms, func(i, j int) bool { return ms[i].ID < ms[j].ID })
 	rs := real.Svcs
@@ -332,7 +334,7 @@ func sameContent(real absDoc, model adoc) bool {
 		return false
 	}
 	for i := range ms {
-		if ms[i] != rs[i] {
+		if ms[i].ID != rs[i].ID || (branches <= 2 && ms[i].Val != rs[i].Val) {
 			return false
 		}
 	}
